@@ -59,7 +59,6 @@ static inline uint8_t fbyte(int fid, uint64_t off) {
 // Only a memory pool: keeps ASan's quarantine from churning through fresh pages (page faults are what limits throughput here).
 #include <sanitizer/asan_interface.h>
 #include <sys/mman.h>
-#include <sys/resource.h>
 #include <photon/thread/stack-allocator.h>
 static std::map<size_t, std::vector<void*>> blk_free_list;
 static std::map<void*, size_t> blk_size;
@@ -90,16 +89,6 @@ static void* stack_alloc(void*, size_t size) {
     return p == MAP_FAILED ? nullptr : p;
 }
 static void stack_dealloc(void*, void* p, size_t size) { size_t g = std::min(size, STACK_GUARDED); ASAN_POISON_MEMORY_REGION((char*)p + size - g, g); stack_pool.push_back({p, size}); }
-
-// End of an execution: push 4 MB of never-touched blocks through free() so that ASan's (4 MB) quarantine lets go of everything this
-// execution freed; the next execution then gets the same (already resident) chunks again instead of fresh pages. Within one execution
-// the quarantine still protects every freed object. (Fresh-page faults cost ~0.5 ms each on this VM: without this a runner process
-// spends 2 s warming up.)
-static void flush_quarantine() {
-    static void* d[64];
-    for (int i = 0; i < 64; i++) d[i] = malloc(64 * 1024);
-    for (int i = 0; i < 64; i++) free(d[i]);
-}
 
 static int io_alloc(void*, IOAlloc::RangeSize sz, void** ptr) { *ptr = blk_alloc(sz.max); return sz.max; }
 static int io_dealloc(void*, void* ptr) { blk_release(ptr); return 0; }
@@ -440,6 +429,7 @@ public:
 
 // ------------------------------------------------------------------ the cache under test
 static void build_cache(bool async_scan) {
+    bool q = W->quiet; W->quiet = true;       // construction itself (fiemap probe, synchronous scan) runs with the default environment
     // capacity 1 GB: water mark 0.9 GB, risk mark 0.95 GB. 2 blocks (630 MB) are below both, 3 blocks (945 MB) are above the water
     // mark (the timer evicts) but below the risk mark, the 4th block reaches the risk mark (the writer evicts inline: forceRecycle)
     uint64_t capGB = 16, floor = 0;
@@ -455,6 +445,7 @@ static void build_cache(bool async_scan) {
         W->cfs = new_full_file_cached_fs(W->src, new MediaFs, W->ru, capGB, LONG_US, floor, &W->alloc, 0, nullptr, LONG_US, async_scan);
     }
     if (!W->cfs) pmc_broken("cannot build the cached fs");
+    W->quiet = q;
 }
 
 static std::string disk_state() {
@@ -590,19 +581,44 @@ static void quiet_full_read(const char* who, bool twice) {
     W->quiet = q;
 }
 
-// config "<scenario>:<pool>:<fie|rng>:ru<4|8>:s<size>[,<size>...]:a<1|2>:y<classes>"
+// One execution = one VARIANT (first PROG choice of the suite) + the program choices of its scenario + the environment's answers.
+// variant "<scenario>:<pool>:<fie|rng>:ru<4|8>:s<size>[,<size>...]:a<1|2>:y<classes>"
 //   scenario  rr        two concurrent readers on a cold cache
 //             re<c|w><1|2|3>  reader, evictor, reader (3 start orders) on a cold / warm (whole file cached) cache;
 //                       evictor: 1 pool->evict(file), 2 fills the pool through /b, 3 lets 300 s pass (pool timer, store TTL)
 //             sq        sequential: read, punch (no read in flight), reuse of the media by a new pool, read
+//             sqx       the same with files of at most one page, where "punch from 4096 to the end" starts at or beyond EOF
 //   pool      cap1 | cap0 | disk | big | quota     map: fiemap works / range map + SEEK_DATA,SEEK_HOLE
 //   y         0 source pread yields, 1 source open/fstat yield, 2 media pread/pwrite/ftruncate/fallocate/fiemap yield,
 //             3 media open/stat/fstat/unlink/truncate/statvfs/opendir yield, f source pread may be short or fail
+struct Suite { const char* name; std::vector<const char*> variants; };
+static const Suite SUITES[] = {
+    {"conc-q", {
+        "rr:cap1:fie:ru4:s8193:a1:y012f",
+        "rr:big:rng:ru8:s4097:a1:y012f",
+        "rew1:cap1:fie:ru4:s8193:a1:y012f",
+        "rew1:cap1:rng:ru8:s8193:a1:y012f",
+        "rec1:cap0:fie:ru4:s4097:a1:y012f",
+        "rew2:cap1:fie:ru4:s8193:a1:y02f",
+        "rew3:cap1:fie:ru4:s8193:a1:y012f",
+    }},
+    {"seq-q", {
+        "sq:cap1:fie:ru4:s8193:a1:yf",
+        "sq:big:rng:ru8:s1,4095,4096,4097:a1:yf",
+    }},
+};
+
 void pmc_run(const char* config) {
     World w; W = &w;
+    pmc_window(1);
     {
+        const Suite* su = nullptr;
+        for (auto& x : SUITES) if (!strcmp(x.name, config)) su = &x;
+        if (!su) pmc_broken("unknown suite %s", config);
+        const char* var = su->variants[pmc_choose((int)su->variants.size(), PMC_PROG, 0, "variant")];
+        w.log = var; w.log += " ";
         char scn[8], pool[8], map[8], sizes[64], ys[8]; int ru, al;
-        if (sscanf(config, "%7[^:]:%7[^:]:%7[^:]:ru%d:s%63[^:]:a%d:y%7s", scn, pool, map, &ru, sizes, &al, ys) != 7) pmc_broken("bad config %s", config);
+        if (sscanf(var, "%7[^:]:%7[^:]:%7[^:]:ru%d:s%63[^:]:a%d:y%7s", scn, pool, map, &ru, sizes, &al, ys) != 7) pmc_broken("bad variant %s", var);
         w.family = scn; w.pool = pool; w.fie = !strcmp(map, "fie"); w.ru = ru * 1024; w.alevel = al;
         for (char* t = strtok(sizes, ","); t; t = strtok(nullptr, ",")) w.sizes.push_back(atoll(t));
         for (int i = 0; i < 4; i++) w.yon[i] = strchr(ys, '0' + i) != nullptr;
@@ -611,7 +627,9 @@ void pmc_run(const char* config) {
     bool quota = w.pool == "quota";
     w.fname[0] = quota ? "/q/a" : "/a"; w.fname[1] = quota ? "/q/b" : "/b";
     w.fsize[1] = PG + 1;
-    pmc_window(0);
+    w.fsize[0] = w.sizes[pmc_choose((int)w.sizes.size(), PMC_PROG, 0, "source file size")];
+    { char b[32]; snprintf(b, sizeof b, "S%lld ", (long long)w.fsize[0]); w.log += b; }
+
     sv::use_fast_stacks = false;
     photon::set_photon_thread_stack_allocator({&stack_alloc, nullptr}, {&stack_dealloc, nullptr});
     sv::init();
@@ -619,10 +637,6 @@ void pmc_run(const char* config) {
     if (!pmc_verbose()) set_log_output_level(ALOG_FATAL + 1);
     SrcFs src; w.src = &src;
     build_cache(false);
-    pmc_window(1);
-
-    w.fsize[0] = w.sizes[pmc_choose((int)w.sizes.size(), PMC_PROG, 0, "source file size")];
-    { char b[32]; snprintf(b, sizeof b, "S%lld ", (long long)w.fsize[0]); w.log += b; }
 
     if (w.family == "rr") {
         w.actors.resize(2);
@@ -631,19 +645,21 @@ void pmc_run(const char* config) {
     } else if (w.family.size() == 4 && w.family[0] == 'r' && w.family[1] == 'e') {
         if (w.family[2] == 'w') quiet_full_read("W", false);
         w.actors.resize(3);
-        w.actors[0].role = 'R'; w.actors[0].fid = 0; w.actors[0].spec = choose_spec(0, "reader 1 range");
+        w.actors[0].role = 'R'; w.actors[0].fid = 0; w.actors[0].spec = choose_spec(0, "reader 1 range", w.alevel == 1 ? 4 : 0);
         w.actors[1].role = 'E'; w.actors[1].action = w.family[3] - '0'; w.actors[1].fid = 1; w.actors[1].spec = {0, PG + 2, 0};
-        w.actors[2].role = 'R'; w.actors[2].fid = 0; w.actors[2].spec = choose_spec(0, "reader 2 range", 3);
+        w.actors[2].role = 'R'; w.actors[2].fid = 0; w.actors[2].spec = choose_spec(0, "reader 2 range", w.alevel == 1 ? 2 : 3);
         int ord = pmc_choose(3, PMC_PROG, 0, "start order: R1 E R2 / E R1 R2 / R1 R2 E");
         { char b[8]; snprintf(b, sizeof b, "o%d ", ord); w.log += b; }
         static const int ORD[3][3] = {{0, 1, 2}, {1, 0, 2}, {0, 2, 1}};
         run_actors({ORD[ord][0], ORD[ord][1], ORD[ord][2]});
-    } else if (w.family == "sq") {
+    } else if (w.family == "sq" || w.family == "sqx") {
         w.actors.resize(1);
         w.actors[0].role = 'R'; w.actors[0].fid = 0; w.actors[0].spec = choose_spec(0, "first read");
         run_actors({0});
         // no read in flight from here on: range punching through the cached file (fallocate == trim == evict(offset, count))
-        int punch = pmc_choose(4, PMC_PROG, 0, "punch: none / [4096,8192) / [1,4097) -> rounded outwards / from 4096 to the end");
+        // "to the end" starts inside the file, except in scenario sqx (start at or beyond EOF)
+        bool toend_ok = w.family == "sqx" || w.fsize[0] > (off_t)PG;
+        int punch = pmc_choose(toend_ok ? 4 : 3, PMC_PROG, 0, "punch: none / [4096,8192) / [1,4097) -> rounded outwards / from 4096 to the end");
         if (punch) {
             IFile* f = W->cfs->open(W->fname[0].c_str(), O_RDONLY);
             if (!f) pmc_violation("open-failed", "open for punching failed");
@@ -668,24 +684,13 @@ void pmc_run(const char* config) {
     delete w.cfs; w.cfs = nullptr;
     sv::fini();
     W = nullptr;
-    if (getenv("C17_FLUSH")) flush_quarantine();
-    if (getenv("C17_PROF")) { static int n; static long lastf; n++; if (n == 1 || n == 10 || n == 50 || n % 200 == 0) { struct rusage ru; getrusage(RUSAGE_SELF, &ru); FILE* f = fopen("/tmp/c17b/prof.txt", "a"); fprintf(f, "pid %d n=%d faults=%ld (+%ld) utime=%ld ms stime=%ld ms\n", getpid(), n, ru.ru_minflt, ru.ru_minflt - lastf, ru.ru_utime.tv_sec * 1000 + ru.ru_utime.tv_usec / 1000, ru.ru_stime.tv_sec * 1000 + ru.ru_stime.tv_usec / 1000); fclose(f); lastf = ru.ru_minflt; } }
 }
 
-#define Q 1
-#define T 2
-#define QT 3
 static const PmcConfig CFG[] = {
-    // name                                   tiers sched  time   env    total
-    {"rr:cap1:fie:ru4:s8193:a1:y012f",          QT, {0,0}, {0,0}, {2,3}, {0,0}, "two concurrent readers, 2 pages + 1 byte, refill unit 4K, fiemap"},
-    {"rew1:cap1:fie:ru4:s8193:a1:y012f",        QT, {0,0}, {0,0}, {2,3}, {0,0}, ""},
-    {"rec2:cap1:fie:ru4:s8193:a1:y012f",        QT, {0,0}, {0,0}, {2,3}, {0,0}, ""},
-    {"rew3:cap1:fie:ru4:s8193:a1:y012f",        QT, {0,0}, {0,0}, {2,3}, {0,0}, ""},
-    {"sq:cap1:fie:ru4:s8193:a1:yf",             QT, {0,0}, {0,0}, {2,3}, {0,0}, ""},
+    // suite    tiers  sched  time   env    total
+    {"conc-q",    1, {0,0}, {0,0}, {2,2}, {0,0}, "concurrent readers / reader-evictor-reader variants"},
+    {"seq-q",     1, {0,0}, {0,0}, {2,2}, {0,0}, "sequential read, punch, reuse, read"},
 };
-#undef Q
-#undef T
-#undef QT
 const PmcConfig* pmc_configs(int* n) { *n = sizeof CFG / sizeof CFG[0]; return CFG; }
 const char* pmc_property(void) { return "C17"; }
 const char* pmc_target(void) { return "cache_sv"; }
